@@ -99,6 +99,101 @@ STATS.loop_born = {"row_value": _row_born}
 TASKS.append(FunctionTask(STATS, module_env={"np": ModV("np", dict(npm.NP.attrs, sum=FuncV(_m_sum, "np.sum")))},
                           clauses=["weighted mean and reliability-weighted standard deviation over all realisations with normalised weights"]))
 
+# ---------------------------------------------------------------------------------------------------------------------
+# montecarlo_fn under contract: one row of draws per generator (rng.normal: opaque, A-RNG), the space conversion for the four generator / spatial
+# combinations, _statistics (contract above) on the realisations in the spatial space with the caller's weights, and what is handed back.
+from pyvc.core import StrV, NONE, A2 as _A2, lit as _lit, real as _real
+from pyvc.contract import sym_obj
+from pyvc.npmodel import EXP, LOG
+
+G, NR = z3.Ints("n_generators n_realizations")
+MEANS, STDS, GW = z3.Const("generator_means", AR), z3.Const("generator_stddevs", AR), z3.Const("generator_weights", AR)
+DRAW = z3.Function("NORMAL_DRAWS", I, R, R, I, AR)          # the array the k-th call rng.normal(mean, stddev, size=n) returns
+STAT_MEAN = z3.Function("STAT_MEAN", _A2(R), I, I, AR, R)   # _statistics(values, weights)[0] (contract STATS: M1(K)/N)
+STAT_STD = z3.Function("STAT_STD", _A2(R), I, I, AR, R)     # _statistics(values, weights)[1]
+
+
+def _mc_inputs(dg, ds):
+    def mk(ex, st):
+        st.env["generator_means"] = ex.alloc_arr(st, (G,), MEANS, "real", "param:generator_means", tag="generator_means")
+        st.env["generator_stddevs"] = ex.alloc_arr(st, (G,), STDS, "real", "param:generator_stddevs", tag="generator_stddevs")
+        st.env["generator_weights"] = ex.alloc_arr(st, (G,), GW, "real", "param:generator_weights", tag="generator_weights")
+        st.env["distribution_generators"], st.env["distribution_spatial"] = StrV(dg), StrV(ds)
+        st.env["n_realizations"] = NR
+        st.env["rng"] = sym_obj(ex, st, "Generator", {}, owner="param:rng")
+        st.env["__rng_calls"] = z3.IntVal(0)          # ghost: number of draws made so far from the generator (its state)
+        st.env["G"], st.env["NR"] = G, NR
+        return [G >= 1, NR >= 1]
+    return mk
+
+
+def _m_rng_normal(ex, st, args, kw, node):
+    k = st.env["__rng_calls"]
+    st.env["__rng_calls"] = z3.simplify(k + 1)
+    st.writes.append(("param:rng", "Generator state", getattr(node, "lineno", 0)))
+    n = _lit(kw["size"])
+    return ex.alloc_arr(st, (n,), DRAW(k, _real(args[1]), _real(args[2]), n), "real", "fresh", tag="draws")
+
+
+def _m_statistics(ex, st, args, kw, node):
+    v, w = ex.arr(st, args[0]), ex.arr(st, args[1])
+    a = (z3.simplify(v.data), v.shape[0], v.shape[1], w.data)
+    spec = ex.k.ghost.get("VALS_SPEC") if ex.k is not None else None
+    if spec is not None:
+        # A-EXT: _statistics reads rows 0..K-1 and columns 0..N-1 of `values` and nothing else (its contract: row sums over the shape), so two arrays
+        # that agree there give the same statistics - instantiated for the array handed over and the one the postcondition names
+        r, j = z3.Ints("r!ext j!ext")
+        agree = z3.ForAll([r, j], z3.Implies(z3.And(r >= 0, r < v.shape[0], j >= 0, j < v.shape[1]),
+                                             z3.Select(z3.Select(a[0], r), j) == z3.simplify(z3.Select(z3.Select(spec, r), j))))
+        b = (spec,) + a[1:]
+        st.pc.append(z3.Implies(agree, z3.And(STAT_MEAN(*a) == STAT_MEAN(*b), STAT_STD(*a) == STAT_STD(*b))))
+    return Tup((STAT_MEAN(*a), STAT_STD(*a)))
+
+
+def _space(dg, ds):
+    """the realisation of generator r, column j, in the spatial space"""
+    t = (lambda x: EXP(x)) if (dg, ds) == ("lognormal", "normal") else ((lambda x: LOG(x)) if (dg, ds) == ("normal", "lognormal") else (lambda x: x))
+    return t
+
+
+def _mc_ghost(dg, ds):
+    t = _space(dg, ds)
+    r_, j_ = z3.Ints("i!m j!m")
+    vals = z3.Lambda([r_], z3.Lambda([j_], t(z3.Select(DRAW(r_, z3.Select(MEANS, r_), z3.Select(STDS, r_), NR), j_))))
+    a = (z3.simplify(vals), G, NR, GW)
+    return {"VALS_SPEC": a[0], "IN_SPACE": lambda r, j: t(z3.Select(DRAW(r, z3.Select(MEANS, r), z3.Select(STDS, r), NR), j)), "exp": EXP,
+            "MEAN_S": STAT_MEAN(*a), "STD_S": STAT_STD(*a), "G": G, "NR": NR}
+
+
+_MC_ENV = {"_statistics": FuncV(_m_statistics, "_statistics"), "default_rng": FuncV(lambda ex, st, a, k, n_: (_ for _ in ()).throw(Undecided("default_rng")), "default_rng")}
+_MC_REG = {"Generator.normal": FuncV(_m_rng_normal, "Generator.normal")}
+for _dg in ("normal", "lognormal"):
+    for _ds in ("normal", "lognormal"):
+        _out = (lambda e: f"exp({e})") if _ds == "lognormal" else (lambda e: e)
+        _c = Contract(qual="hvsrpy.hvsr_spatial.montecarlo_fn",
+                      params=["generator_means", "generator_stddevs", "generator_weights", "distribution_generators", "distribution_spatial", "n_realizations", "rng"],
+                      ghost=_mc_ghost(_dg, _ds), make_inputs=_mc_inputs(_dg, _ds), stable_shapes=("realizations",),
+                      requires=["len(generator_stddevs) == len(generator_means)"],
+                      ensures=[f"result[0] == {_out('MEAN_S')}", "result[1] == STD_S",
+                               "result[2].shape[0] == G and result[2].shape[1] == NR",
+                               f"forall(r, 0, G, forall(j, 0, NR, result[2][r, j] == {_out('IN_SPACE(r, j)')}))"],
+                      loops={0: ["forall(q, 0, _k0, forall(j, 0, NR, realizations[q, j] == " +
+                                 "DRAWN(q, j)))", "CALLS() == _k0"]},
+                      modifies=["param:rng"],
+                      notes="statistics = _statistics of the realisations converted to the spatial space, with the caller's weights; the mean is returned in "
+                            "linear space (exp for a lognormal spatial distribution), the standard deviation in the spatial space, the realisations in linear space")
+        _c.ghost["DRAWN"] = lambda q, j: z3.Select(DRAW(q, z3.Select(MEANS, q), z3.Select(STDS, q), NR), j)
+        _c.ghost["CALLS"] = FuncV(lambda ex, st, a, k, n_: st.env["__rng_calls"], "CALLS")
+        _c.ghost_state = ("__rng_calls",)
+        TASKS.append(FunctionTask(_c, module_env=_MC_ENV, registry=_MC_REG, label=f"hvsrpy.hvsr_spatial.montecarlo_fn[generators={_dg},spatial={_ds}]",
+                                  clauses=["Monte-Carlo statistics are the weighted statistics of the realisations in the requested space"]))
+for _dg, _ds in (("gamma", "normal"), ("normal", "gamma")):
+    TASKS.append(FunctionTask(Contract(qual="hvsrpy.hvsr_spatial.montecarlo_fn",
+                                       params=["generator_means", "generator_stddevs", "generator_weights", "distribution_generators", "distribution_spatial", "n_realizations", "rng"],
+                                       make_inputs=_mc_inputs(_dg, _ds), raises={"NotImplementedError": "True"}, ensures=[], modifies=[]),
+                              module_env=_MC_ENV, registry=_MC_REG, label=f"hvsrpy.hvsr_spatial.montecarlo_fn[generators={_dg},spatial={_ds}]",
+                              clauses=["unrecognised distributions are refused"]))
+
 META = dict(
     level="other",
     explanation="proved: _statistics (normalised weights, weighted mean over all realisations, reliability-weighted standard deviation; row sums named); "
